@@ -130,8 +130,11 @@ void inconclusive(const char *why)
 	if (g_abort_run_hook) g_abort_run_hook();
 }
 
+static int g_evtrace = -1;
 void ev(uint32_t kind, int64_t a, int64_t b, int64_t c)
 {
+	if (g_evtrace < 0) g_evtrace = getenv("SIMK_TRACE") ? 1 : 0;
+	if (g_evtrace && kind >= 100) fprintf(stderr, "E kind=%u a=%lld b=%lld c=%lld\n", kind, (long long)a, (long long)b, (long long)c);
 	uint64_t h = sh->res.ev_hash;
 	h = mix64(h ^ kind);
 	h = mix64(h ^ (uint64_t)a);
